@@ -3,7 +3,7 @@
 (a) every placement of 1..3 drivers (logic in one of 4 modules x 3 domains, instance output, I/O buffer input, memory read
     data) over every non-empty bit subset of one or two narrow signals; ground truth by set arithmetic on bit owners.
 (b) every directed dependency graph (self loops included) between N signal bits up to an edge bound, laid out over 1..3
-    signals and realised in ~85 styles (bit-precise wiring / bitwise operators / choice data / conditional data,
+    signals and realised in ~80 styles (bit-precise wiring / bitwise operators / choice data / conditional data,
     word-level operators per bit and shared between bits, conditions, part-select and array targets, registers,
     hierarchy); ground truth by DFS on the dependency graph derived from the statement's rules (ref/c06_model).
 The observed outcome is the exception class (or none) of building the design and running amaranth.back.rtlil.convert."""
@@ -148,7 +148,7 @@ def plan(rep):
     tasks = []
     if rep.quick:
         drv = [((2,), 2, 3, 2), ((3,), 2, 2, 1), ((1, 2), 2, 2, 1)]
-        dep = [(3, 9, [(3,), (1, 2), (1, 1, 1)]), (4, 3, [(4,), (2, 2)])]
+        dep = [(3, 9, [(3,), (1, 2), (1, 1, 1)]), (4, 3, [(2, 2)]), (4, 2, [(4,)])]
     else:
         drv = [((2,), 2, 3, 3), ((3,), 2, 3, 2), ((1, 2), 2, 3, 2), ((2, 2), 2, 3, 1)]
         dep = [(3, 9, [(3,), (1, 2), (2, 1), (1, 1, 1)]), (4, 5, [(4,), (2, 2), (1, 3), (2, 1, 1)]), (5, 3, [(5,)]), (5, 4, [(2, 3)]),
@@ -169,6 +169,20 @@ def plan(rep):
                       for w, a, b, s in drv],
               "dep": [{"bits": n, "max_edges": e, "layouts": [list(l) for l in ls], "styles": len(G.styles(n))} for n, e, ls in dep]}
     return tasks, bounds
+
+
+SAMPLE_CASES = [
+    {"part": "drv", "widths": [2], "frontend": "dsl", "style": 0, "drivers": [["L", "top", "comb", 0, 1], ["L", "child", "comb", 0, 2]]},
+    {"part": "drv", "widths": [2], "frontend": "dsl", "style": 0, "drivers": [["L", "top", "d1", 0, 3], ["inst", "child", None, 0, 2]]},
+    {"part": "drv", "widths": [2], "frontend": "frag", "style": 0, "drivers": [["L", "sib", "comb", 0, 1], ["L", "sib", "d2", 0, 1]]},
+    {"part": "drv", "widths": [2], "frontend": "dsl", "style": 0, "drivers": [["L", "sib", "comb", 0, 1], ["L", "sib", "d2", 0, 1]]},
+    {"part": "dep", "layout": [3], "edges": [[0, 1], [1, 2]], "style": "w_cat"},
+    {"part": "dep", "layout": [3], "edges": [[0, 1], [1, 2]], "style": "w_not"},
+    {"part": "dep", "layout": [1, 2], "edges": [[0, 1], [1, 0]], "style": "pb_or"},
+    {"part": "dep", "layout": [1, 2], "edges": [[0, 1], [1, 0]], "style": "pb_or@r0"},
+    {"part": "dep", "layout": [3], "edges": [[0, 1], [1, 0]], "style": "pb_if"},
+    {"part": "dep", "layout": [3], "edges": [[1, 0], [1, 1]], "style": "ws_add_w"},
+]
 
 
 def run(rep):
@@ -194,10 +208,13 @@ def run(rep):
                "the listed bit counts up to the edge bound x every listed layout x every style; expected CombinationalCycle iff a "
                "bit reaches itself under the statement's dependency rules, otherwise rtlil.convert must succeed. non-trivial: "
                "designs with >= 2 drivers / with >= 1 dependency edge")
-    rep.sample({"drv": "drv:dsl0:w2:[L@top.comb:s0m1,L@child.comb:s0m2]", "expected": "ok (bit-disjoint, two modules)"})
-    rep.sample({"drv": "drv:dsl0:w2:[L@top.d1:s0m3,inst@child:s0m2]", "expected": "DriverConflict"})
-    rep.sample({"dep": "dep:w_cat:L3:[0>1 1>2]", "expected": "ok (shift chain inside one signal)"})
-    rep.sample({"dep": "dep:ws_add_b:L2:[1>0 1>1]", "expected": "CombinationalCycle (a.eq(a[1] + 1))"})
+    for case in SAMPLE_CASES:          # a few fixed members of the space, evaluated here so that the evidence shows real outcomes
+        if case["part"] == "drv":
+            want, got = check_drv(case)
+            rep.sample({"case": G.drv_sig(case), "expected": want, "observed": got})
+        else:
+            want, got = check_dep(case)[:2]
+            rep.sample({"case": G.dep_sig(case), "expected": want, "observed": got})
     # vacuity guards: every antecedent of the statement and both outcomes of every style
     for need in ("two_modules", "two_domains", "two_modules_and_domains", "logic_and_inst", "logic_and_iob", "logic_and_mem",
                  "two_nonlogic", "disjoint_multi_driver", "single_driver"):
